@@ -290,7 +290,9 @@ def run_shard(spec, tier, seed):
 
     def genv(system):
         if _is_tau(system):
-            return gen.vec4(r, core=core, wide=False, causal="timelike", forward=True)
+            # forward-pointing; spacelike vectors are representable in tau storage too (negative tau), and so are their
+            # sums with other forward-pointing vectors
+            return gen.vec4(r, core=core, wide=False, causal=r.choice(["timelike", "timelike", "timelike", "spacelike", "spacelike"]), forward=True)
         if dim == 4:
             return gen.vec4(r, core=core, wide=False)
         return gen.vec(r, dim, core=core, wide=False)
